@@ -1631,7 +1631,42 @@ def classify(ctx, failure):
         structural = ("refused" in failure.what) or (v and v[0][0] in ("eq", "unk", "dof", "defect", "observation count"))
         if small and (structural or structural_vs_gso(ctx, p)):
             return "C09-F2"
+        # numeric face of the same root cause: same structure for both sigma-apr, but the numbers of the run with the
+        # smaller weights deviate under envelope / cholesky (a legitimate small pivot close to the absolute
+        # sqrt(eps)), while the SAME pair under gso is consistent in every field
+        if p.get("oracle") == "pair" and p.get("sigma_apr_2") and min(weight_range(n)[0] for n in nets) < 1e-4 \
+                and not structural and pair_consistent_under_gso(ctx, p):
+            return "C09-F2"
     return None
+
+
+_PAIR_GSO = {}
+
+
+def pair_consistent_under_gso(ctx, p):
+    key = id(p.get("net")), p.get("sigma_apr_2")
+    if key not in _PAIR_GSO:
+        res = False
+        tmp = Path(tempfile.mkdtemp(prefix="c09p-", dir=str(ctx.build)))
+        try:
+            gama = ctx.build_gama(sanitize=False) / "gama-local"
+            s1, s2 = float(p["net"]["params"]["sigma-apr"]), float(p["sigma_apr_2"])
+            R = []
+            for k, s in enumerate((s1, s2)):
+                n = copy.deepcopy(p["net"])
+                n["params"]["sigma-apr"] = s
+                g = tmp / f"g{k}.gkf"
+                g.write_text(gen_net.to_gkf(n, algorithm="gso", nd=10))
+                R.append(run_gama(gama, g, tmp / f"g{k}.xml")[0])
+            if R[0] is not None and R[1] is not None:
+                bad, _ = oracle_pair(R[0], R[1], s1, s2)
+                res = not bad
+        except Exception:      # noqa: a classification helper must never turn a failure into a crash
+            res = False
+        finally:
+            shutil.rmtree(tmp, ignore_errors=True)
+        _PAIR_GSO[key] = res
+    return _PAIR_GSO[key]
 
 
 _VS_GSO = {}
